@@ -273,7 +273,10 @@ theorem decodeLayer_encode (l : Layer) (hw : l.wf = true) :
             (leBytes 2 l.defaultPage ++ (leBytes 8 data.length ++ data))))))))) with
         | Res.fail e => Res.fail e
         | Res.ok (f, data) =>
-          if f.roleByte = 1 then Res.fail Fail.imageLayer
+          if f.roleByte = 1 then
+            (if lenLt data 16 = true then Res.fail Fail.errCodec else
+             if f.width ≥ 2147483648 ∨ f.height ≥ 2147483648 then Res.fail Fail.negSize else
+             Res.ok (decodeFlags (freshLayer l.title f) f.flags))
           else if lenLt data f.length = true then Res.fail Fail.errLength
           else if f.width ≥ 2147483648 ∨ f.height ≥ 2147483648 then Res.fail Fail.negSize
           else match readRows f.width f.height data with
